@@ -173,6 +173,20 @@ class Plumbing:
         """Ordered file effects of save_calibrator_state, helpers of the same module inlined at their call site."""
         effects: list[FileEffect] = []
         self._effects_of(self.save, single_assignment_env(self.save.node), effects, "", 0)
+        # completeness: a file handle handed to a callable the extractor does not know is a write it cannot see - the verdicts "never written" / "read but
+        # not written" would then rest on an incomplete picture
+        known = {id(e.node) for e in effects}
+        handles = {it.optional_vars.id for w in ast.walk(self.save.node) if isinstance(w, ast.With) for it in w.items if isinstance(it.optional_vars, ast.Name)}
+        for c in [x for x in ast.walk(self.save.node) if isinstance(x, ast.Call)]:
+            if id(c) in known:
+                continue
+            passed = [a for a in [*c.args, *[k.value for k in c.keywords]] if isinstance(a, ast.Name) and a.id in handles]
+            if not passed:
+                continue
+            q = self.prog.qualify(self.save.module, dotted(c.func) or "") or ""
+            if q in ("json.dump", "pickle.dump", "print") or any(isinstance(t, FuncInfo) for t in self.prog.resolve_call(self.save, c)):
+                continue
+            raise AnalysisError(f"{self.save.loc(c)}: the open file `{passed[0].id}` is handed to `{src(c.func)[:40]}`, which the extractor cannot read; the file effects of save cannot be read")
         for i, e in enumerate(effects):
             e.order = i
             if e.file in (None, "?", ""):
